@@ -23,7 +23,7 @@ fn tree(r: &Path) -> Tree {
 }
 fn pattern(n: usize, salt: u8) -> Vec<u8> { (0..n).map(|i| ((i * 31 + i / 251) as u8) ^ salt).collect() }
 
-struct Env { dir: PathBuf }
+struct Env { dir: PathBuf, flags: std::cell::RefCell<Vec<String>> }
 impl Env {
     fn new(tagx: &str) -> Option<Env> {
         let d = std::env::temp_dir().join(format!("copia-verif-oneway-{}-{}", std::process::id(), tagx));
@@ -34,7 +34,7 @@ impl Env {
         std::fs::write(&shim, "#!/bin/bash\nshift\nif [ -n \"$COPIA_VERIF_REMOTE_FAULT\" ] && [[ \"$1\" == cat\\ \\$* ]]; then /bin/bash -c \"$1\" | head -c 1000; exit 255; fi\nexec /bin/bash -c \"$1\"\n").ok()?;
         use std::os::unix::fs::PermissionsExt;
         std::fs::set_permissions(&shim, std::fs::Permissions::from_mode(0o755)).ok()?;
-        Some(Env { dir: d })
+        Some(Env { dir: d, flags: std::cell::RefCell::new(vec![]) })
     }
     /// source and destination trees of the scenario (sizes from 0 bytes to several 256 KiB transfer chunks)
     fn populate(&self, dst: &str) -> Option<()> {
@@ -57,6 +57,7 @@ impl Env {
     fn args(&self, dir: &str, dst: &str) -> Vec<String> {
         let (s, d) = (self.dir.join("src").to_string_lossy().into_owned(), self.dir.join(dst).to_string_lossy().into_owned());
         let mut v = vec!["sync".to_string(), "-r".into(), "-j".into(), "1".into()];
+        v.extend(self.flags.borrow().iter().cloned());
         match dir { "pull" => { v.push(format!("fakehost:{s}")); v.push(d); } "push" => { v.push(s); v.push(format!("fakehost:{d}")); } _ => { v.push(s); v.push(d); } }
         v
     }
@@ -81,8 +82,12 @@ impl Env {
 impl Drop for Env { fn drop(&mut self) { let _ = std::fs::remove_dir_all(&self.dir); } }
 
 /// one direction, one kill point; None = property held here (or the run was not killed: k beyond the last call)
-pub fn kill_point(dir: &str, k: usize) -> (Option<String>, bool) {
-    let Some(env) = Env::new(&format!("{dir}{k}")) else { return (None, false) };
+pub fn kill_point(dir: &str, k: usize) -> (Option<String>, bool) { kill_point_v(dir, k, 0) }
+/// variant 0: default flags; variant 1: --delete (the destination-only file is in the plan: it may be gone, nothing else may)
+pub fn kill_point_v(dir: &str, k: usize, variant: usize) -> (Option<String>, bool) {
+    let Some(env) = Env::new(&format!("{dir}{k}v{variant}")) else { return (None, false) };
+    if variant == 1 { env.flags.borrow_mut().push("--delete".into()); }
+    let dir_s = if variant == 1 { format!("{dir} --delete") } else { dir.to_string() };
     if env.populate("ref").is_none() { return (None, false); }
     let src = tree(&env.dir.join("src"));
     let (rc, out) = env.run(dir, "ref");
@@ -101,9 +106,9 @@ pub fn kill_point(dir: &str, k: usize) -> (Option<String>, bool) {
         if !old_ok && !new_ok {
             return (Some(format!("[{dir}] killed right before its {k}-th file-system/pipe write call `{at}`: destination `{p}` holds {} bytes that are neither its previous content ({}) nor the complete source file ({} bytes) - a truncated or mixed file is visible at a live path (C09)", v.len(), before.get(p).map(|b| format!("{} bytes", b.len())).unwrap_or("absent".into()), src.get(p).map(|b| b.len()).unwrap_or(0))), true);
         }
-        if !src.contains_key(p) && !old_ok { return (Some(format!("[{dir}] killed before call {k} `{at}`: `{p}`, which is outside the plan, changed (C09)")), true); }
+        if !src.contains_key(p) && !old_ok { return (Some(format!("[{dir_s}] killed before call {k} `{at}`: `{p}`, which is outside the plan, changed (C09)")), true); }
     }
-    for p in before.keys() { if !after.contains_key(p) { return (Some(format!("[{dir}] killed before call {k} `{at}`: `{p}` existed before the run and is gone (C09)")), true); } }
+    for p in before.keys() { if !after.contains_key(p) && !(variant == 1 && !src.contains_key(p)) { return (Some(format!("[{dir_s}] killed before call {k} `{at}`: `{p}` existed before the run and is gone (C09)")), true); } }
     let (rc2, out2) = env.run(dir, "dst");
     if rc2 != Some(0) { return (Some(format!("[{dir}] killed before call {k} `{at}`, then the same command was run again: it does not complete (exit {rc2:?}): {} (C09)", out2.lines().filter(|l| l.contains("FAIL") || l.contains("rror")).take(2).collect::<Vec<_>>().join(" | "))), true); }
     let fin = tree(&env.dir.join("dst"));
@@ -262,8 +267,10 @@ pub fn run_noop(w: &str) -> i32 {
     match second_run_is_noop(dir) { Some(what) => { println!("REPRODUCED: {what}"); 1 } None => { println!("not reproduced: the second run in direction {dir} transfers nothing and changes nothing"); 0 } }
 }
 /// number of file-system / pipe write calls of an uninterrupted run in this direction
-pub fn count_calls(dir: &str) -> usize {
-    let Some(env) = Env::new(&format!("{dir}count")) else { return 0 };
+pub fn count_calls(dir: &str) -> usize { count_calls_v(dir, 0) }
+pub fn count_calls_v(dir: &str, variant: usize) -> usize {
+    let Some(env) = Env::new(&format!("{dir}count{variant}")) else { return 0 };
+    if variant == 1 { env.flags.borrow_mut().push("--delete".into()); }
     if env.populate("dst").is_none() { return 0; }
     env.run_killed(dir, "dst", 0).map(|o| if o.exit == Some(0) { o.calls } else { 0 }).unwrap_or(0)
 }
@@ -287,6 +294,17 @@ pub fn search(as_twin: bool, thorough: bool) -> i32 {
             k += if thorough || k < 40 { 1 } else { 3 };
         }
         eprintln!("oneway {dir}: {n} kill points, {reported} violating");
+        if thorough {
+            // thorough: the same with --delete
+            let n = count_calls_v(dir, 1);
+            let mut reported = 0;
+            for k in 1..=n {
+                let (w, killed) = kill_point_v(dir, k, 1);
+                if killed { cases += 1; }
+                if let Some(what) = w { if reported < 2 { println!("WITNESS {{\"kind\":\"oneway\",\"dir\":{di},\"k\":{k},\"variant\":1,\"what\":\"{}\"}}", what.replace('"', "'").replace('\n', " ")); } reported += 1; }
+            }
+            eprintln!("oneway {dir} --delete: {n} kill points, {reported} violating");
+        }
     }
     if as_twin { println!("CASES {cases}"); }
     0
@@ -295,5 +313,5 @@ pub fn run_w(w: &str) -> i32 {
     let di = json_u64(w, "dir").unwrap_or(0) as usize; let k = json_u64(w, "k").unwrap_or(1) as usize;
     if di == 9 { return match remote_fault() { Some(what) => { println!("REPRODUCED: {what}"); 1 } None => { println!("not reproduced: a failing remote end publishes nothing incomplete"); 0 } }; }
     let dir = DIRS[di.min(2)];
-    match kill_point(dir, k) { (Some(what), _) => { println!("REPRODUCED: {what}"); 1 } (None, killed) => { println!("not reproduced: direction {dir}, kill point {k} (killed: {killed}) leaves only complete files and the re-run converges"); 0 } }
+    match kill_point_v(dir, k, json_u64(w, "variant").unwrap_or(0) as usize) { (Some(what), _) => { println!("REPRODUCED: {what}"); 1 } (None, killed) => { println!("not reproduced: direction {dir}, kill point {k} (killed: {killed}) leaves only complete files and the re-run converges"); 0 } }
 }
